@@ -166,6 +166,30 @@ def ops_for(a, m):
         def ell(a, m):
             return a[..., 1:], m.take(list(range(1, m.n())))
         ops.append(("stack[..., 1:]", ell))
+        # integer model index (Python and NumPy integer types alike) with an atom selection: one model as an AtomArray
+        for typ in (int, np.int64, np.int32, np.uint8, np.intp):
+            for k in (0, -1, len(m.coord) - 1):
+                if k < 0 and typ is np.uint8:
+                    continue
+                def one_model(a, m, typ=typ, k=k):
+                    r = a[typ(k), 1:]
+                    if not isinstance(r, struc.AtomArray):
+                        return f"stack[{typ.__name__}({k}), 1:] is a {type(r).__name__} of shape {getattr(r, 'shape', None)}, an AtomArray is expected", None
+                    m2 = m.take_models([k % len(m.coord)]).take(list(range(1, m.n())))
+                    m2.stack = False
+                    same = a[typ(k)][1:]
+                    if not (r == same):
+                        return f"stack[{typ.__name__}({k}), 1:] != stack[{k}][1:]", None
+                    return r, m2
+                ops.append((f"stack[{typ.__name__}({k}), 1:]", one_model))
+            def one_atom(a, m, typ=typ):
+                at = a[typ(0), typ(m.n() - 1)]
+                if not isinstance(at, struc.Atom):
+                    return f"stack[{typ.__name__}(0), {typ.__name__}(n-1)] is a {type(at).__name__}, an Atom is expected", None
+                if tuple(float(x) for x in at.coord) != m.coord[0][m.n() - 1]:
+                    return "stack[i, j] is another atom than model i, atom j", None
+                return a, None
+            ops.append((f"stack[{typ.__name__}(0), {typ.__name__}(n-1)]", one_atom))
         if len(m.coord) >= 2:
             for i in (0, -1):
                 def dm(a, m, i=i):
@@ -485,6 +509,76 @@ def stack_bonds_case(variant):
 for variant in ("same bonds", "later arrays without bonds", "later arrays with fewer bonds", "later arrays with more bonds"):
     R.check("stack(): one bond list for all models, that of the first array", "stack: bonds of the first array", {"variant": variant},
             lambda variant=variant: stack_bonds_case(variant))
+
+
+def protocol_case(stack):
+    """the container protocol around the operations of the statement: length / shape / iteration, rebuilding from
+    the iterated elements, ==, and that arrays of the wrong length are refused without changing the container"""
+    a, m = build(stack)
+    n = m.n()
+    if a.array_length() != n or (stack and (a.stack_depth() != M or a.shape != (M, n) or len(a) != M)) or (not stack and (a.shape != (n,) or len(a) != n)):
+        return f"length / shape: array_length {a.array_length()}, shape {a.shape}, len {len(a)}"
+    items = list(a)
+    if stack:
+        if len(items) != M or any(not isinstance(x, struc.AtomArray) for x in items):
+            return "iterating a stack does not give its models"
+        for k, x in enumerate(items):
+            c = compare(x, m.take_models([k]).__class__(m.ann, [m.coord[k]], m.bonds, [m.box[k]], False))
+            if c:
+                return f"model {k} from iteration: {c}"
+        back = struc.stack(items)
+        if not (back == a) or compare(back, m):
+            return "stack(list(stack)) differs from the stack"
+        if not (a.get_array(1) == items[1]):
+            return "get_array(1) differs from the iterated model"
+    else:
+        if len(items) != n or any(not isinstance(x, struc.Atom) for x in items):
+            return "iterating an array does not give its atoms"
+        back = struc.array(items)
+        back.bonds = a.bonds.copy()
+        back.box = a.box.copy()
+        if not (back == a) or compare(back, m):
+            return "array(list(array)) differs from the array (annotations / coordinates)"
+        for i, at in enumerate(items):
+            if at.res_id != m.ann["res_id"][i] or at.atom_name != m.ann["atom_name"][i] or tuple(float(x) for x in at.coord) != m.coord[0][i]:
+                return f"atom {i} from iteration differs from the model"
+    # == tells the parts apart
+    for what, change in (("coord", lambda c: c.coord.__setitem__((Ellipsis, 0, 0), 123.0)), ("annotation", lambda c: c.res_id.__setitem__(0, 99)),
+                         ("bonds", lambda c: c.bonds.add_bond(0, n - 1, 3)), ("box", lambda c: c.box.__setitem__((Ellipsis, 0, 0), 77.0))):
+        c = a.copy()
+        if not (c == a):
+            return "copy != original"
+        change(c)
+        if c == a:
+            return f"== does not notice a difference in {what}"
+    # wrong lengths are refused, nothing changes
+    for what, f in (("coord", lambda: setattr(a, "coord", np.zeros(((M, n + 1, 3) if stack else (n + 1, 3)), dtype=np.float32))),
+                    ("annotation", lambda: a.set_annotation("res_id", np.arange(n + 1))),
+                    ("bonds", lambda: setattr(a, "bonds", struc.BondList(n + 1))),
+                    # (a stack accepts coordinates / boxes of another depth - models may be replaced as a whole -, so only
+                    #  the dimensionality and the 3x3 shape are checked for the box)
+                    ("box", lambda: setattr(a, "box", np.zeros(((3, 3) if stack else (2, 3, 3)), dtype=np.float32))),
+                    ("box vectors", lambda: setattr(a, "box", np.zeros(((M, 3, 2) if stack else (3, 2)), dtype=np.float32)))):
+        try:
+            f()
+            return f"{what} of the wrong length was accepted"
+        except (ValueError, IndexError, TypeError):
+            pass
+        c = compare(a, m)
+        if c:
+            return f"a refused {what} assignment changed the container: {c}"
+    cats = set(a.get_annotation_categories())
+    if cats != set(m.ann):
+        return f"annotation categories {sorted(cats)}"
+    a.del_annotation("extra")
+    if "extra" in a.get_annotation_categories():
+        return "del_annotation"
+    return None
+
+
+for st in (False, True):
+    R.check("container protocol: length, iteration, rebuilding, ==, refused assignments", ("stack: " if st else "array: ") + "container protocol",
+            {"container": "stack" if st else "array"}, lambda st=st: protocol_case(st))
 
 
 depth = 3 if R.thorough else 2
